@@ -204,7 +204,7 @@ func init() {
 	ps := &PropSpec{
 		ID: "C04", Level: "exploration",
 		Verdict: []string{"det.", "commit.order"},
-		Rule: "one generated history (multi-owner worlds whose owner order differs from creation order, allocator pre-advanced across byte boundaries, commits of both flavours, reopen, crash, compact encoding on/off) is re-executed under variants that must not matter: worker counts {1,2,3,8,64}, pool flushes (runtime.GC) at random steps, repeated in-process executions (fresh Go map iteration orders), controlled worker schedules (seeded scheduler over testing/synctest), and - by the orchestrator - the same seeds in fresh OS processes under different GOMAXPROCS; at every commit point the full register state must be byte-identical, the deterministic commit must issue the identical write sequence in strictly ascending (owner,index) order, the order-relaxed commit the identical write set. Non-trivial = >= 2 commits each writing >= 3 registers; distinct by trace hash",
+		Rule: "one generated history (multi-owner worlds whose owner order differs from creation order, allocator pre-advanced across byte boundaries, commits of both flavours, reopen, crash, compact encoding on/off) is re-executed under variants that must not matter: worker counts {1,2,3,8,64}, pool flushes (runtime.GC) at random steps, repeated in-process executions (fresh Go map iteration orders; two variants per history also let the order-relaxed commit walk its write set in Go's own map order), a variant in which every commit uses the other flavour (same set of writes and deletions, same bytes), a deterministic commit rejected by an encoder failure, temporary-owner slabs pending next to owned ones in a third of the histories, controlled worker schedules at job and element granularity (seeded scheduler over testing/synctest), and - by the orchestrator - the same seeds in fresh OS processes under different GOMAXPROCS; at every commit point the full register state must be byte-identical, the deterministic commit must issue the identical write sequence in strictly ascending (owner,index) order, the order-relaxed commit the identical write set. Non-trivial = >= 2 commits each writing >= 3 registers; distinct by trace hash",
 		ExpectedReach: []string{"variant.workers", "variant.gc", "variant.repeat", "pool.flush", "commit.nfc", "commit.fc"},
 	}
 	type aux struct {
